@@ -9,7 +9,8 @@ MANIFEST = dict(
     text="One Lean theorem per operator machine: for all parameters, raw scripts and source modes, delivered trace = the documented list function (Spec.*) of the source's values and ending; "
          "chains = composition (seq_out). Tie: exhaustive small-scope + seeded differential runs of every machine against the real operator (values, kinds, order). "
          "Deviations of the pinned tree are proved as witness theorems and listed as known findings."
-         ' RangeWithStep (integral bounds and steps): every start +- i*step of [start:end), ceil(|end-start|/step) values (C04d.rangeWithStep), tied by kind=create and by the generator regenerated from the source (C04create.rangeWithStepG_gen).',
+         ' RangeWithStep (integral bounds and steps): every start +- i*step of [start:end), ceil(|end-start|/step) values (C04d.rangeWithStep), tied by kind=create and by the generator regenerated from the source (C04create.rangeWithStepG_gen).'
+         " SequenceEqual (RoModel/Ops/SeqEq.lean: what the code computes for every pair; `_partial` = documented function on equal lengths; deviation witnessed and listed), FloorWithPrecision / CeilWithPrecision on exactly representable inputs (integer n of n/10^places compared, never a float), the delivered values of the multi-source runs and of the re-subscribing operators' runs are read through C04's projection (C05gen, C15 among its modules).",
     technique="Lean 4 proof (machine = list-function specification, induction on the value list) + differential correspondence",
     ref='5/C04')
 
